@@ -22,6 +22,7 @@ ENGINES = [
     {"name": "gov", "path": "harness/eng_gov.go", "serves_properties": ["C36"], "kind_free_text": "enumerates current/main-network/inner-ring key lists through the real newAlphabetList/updateInnerRing against Model/Governance.lean"},
     {"name": "meta", "path": "harness/eng_meta.go", "serves_properties": ["C01", "C02", "C06", "C07"], "kind_free_text": "history driver of the real metabase (meta.DB on a temp bolt file, settable epoch) against Model/Meta.lean + Spec/MetaRef.lean"},
     {"name": "dump", "path": "harness/eng_dump.go", "serves_properties": ["C46"], "kind_free_text": "dumps real shards and restores them through chunking readers against Model/Dump.lean"},
+    {"name": "wc", "path": "harness/eng_wc.go", "serves_properties": ["C17"], "kind_free_text": "history driver of the real writecache over a failure-injecting main storage against Model/WC.lean"},
     {"name": "ec", "path": "harness/eng_ec.go", "serves_properties": ["C21", "C22"], "kind_free_text": "differential driver of internal/ec against Model/EC.lean"},
 ]
 
@@ -225,3 +226,24 @@ prop("C46",
           "by Get on the restored shard in the run).",
      rule="60 (quick) / 3000 (thorough) seeded dumps of 0..6 objects (payload 0..5004 bytes) x reader kind (plain, 1-byte, 2-4 byte, random chunks up "
           "to 9000) x optional corrupted record x ignore-errors; non-trivial = at least two objects through a chunking reader; distinct by op")
+
+prop("C17",
+     theorems=["NeoFS.WC.size_exact", "NeoFS.WC.failed_flush_keeps", "NeoFS.WC.flush_empties", "NeoFS.WC.flush_stores_all",
+               "NeoFS.WC.put_inv", "NeoFS.WC.delete_inv", "NeoFS.WC.flushSingle_inv", "NeoFS.WC.flushAll_inv", "NeoFS.WC.reopen_inv"],
+     engines=[dict(name="wc", quick=1, thorough=1)],
+     claim="Lean proves by induction over ALL histories of puts (repeated, of the same and different addresses), deletes, single flushes and "
+           "Flush passes under an arbitrary main-storage failure oracle, and reopens: at every step boundary (quiescent point) the reported size "
+           "equals the total size of the files the cache holds and the counter map equals the file map (size_exact); a failed flush changes "
+           "nothing (the object stays to be retried); a Flush pass with an accepting storage empties the cache, reports size 0 and leaves "
+           "every object it held in the main storage with its size, whatever failures preceded it. The repaired defect (a re-put counted "
+           "twice) is what size_exact excluded. Tied to the real writecache (real FSTree behind a failure-injecting storage, background "
+           "scheduler running against the failing storage) by a differential run that dumps size, counters, cache files and main storage after every op.",
+     note="Trusted: Lean kernel; hand model Model/WC.lean (tied by correspondence). Atomic steps are whole put/delete/flushSingle calls (the "
+          "counters mutex and the per-address flushObjs set serialise them per address); the background scheduler's batching and 10 s back-off "
+          "timing are exercised by the run (it keeps hitting the failing storage) but its fairness is an assumption, not a theorem: liveness is "
+          "stated as 'one Flush pass with an accepting storage empties the cache from ANY reachable state'.",
+     rule="120 (quick) / 6000 (thorough) seeded histories of 6..30 ops over 5 addresses (one fixed payload per address as ids are content hashes; "
+          "sizes 0..2502 on both sides of the batch threshold, cache capacity 6000 so admission refusals occur): put / delete / Flush with ok or "
+          "failing storage / reopen; after EVERY op: reported size, counter map, cache files, main storage; non-trivial = history > 5 ops; distinct by history",
+     trusted=["FSTree and the kernel file system under the cache and the main storage are exercised, not modelled here (C10-C13)"],
+     assumptions=["scheduler fairness (every cached address is eventually picked once the storage accepts writes) is assumed, not proved"])
